@@ -1,5 +1,6 @@
 """C09 - directory-hash verification detects any change anywhere in the tree (engine E1: bases x mutations)"""
 import itertools
+import unicodedata
 
 from mc import engine, ref, ops, sub
 from mc.engine import Viol
@@ -8,7 +9,7 @@ PROP = "C09"
 DIR = None
 FLAT = {"a.txt": b"content of a", "b.txt": b"content of b"}
 T = {"a.txt": b"content of a", "d": DIR, "d/c.txt": b"content of c", "d/e": DIR, "d/e/f.txt": b"content of f", "emp": DIR,
-     "d/\u00fcml\u00e4ut \u00df.txt": b"utf-8 name"}
+     "d/\u00fcml\u00e4ut \u00df.txt": b"utf-8 name", "cafe\u0301": DIR, "cafe\u0301/n.txt": b"in a folder with a decomposed name"}
 
 
 def bases(ctx, tier):
@@ -49,6 +50,11 @@ def mutations(tree):
         par = ref.parent(p)
         new = (par + "/" if par else "") + "renamed-" + p.split("/")[-1]
         out.append((f"rename {p}", ["mv", p, new]))
+        # renames that only change the letter case, or only the Unicode normalisation form, of the name
+        n = p.split("/")[-1]
+        for variant, tag in ((n.swapcase(), "case"), (unicodedata.normalize("NFD", n), "nfd"), (unicodedata.normalize("NFC", n), "nfc")):
+            if variant != n:
+                out.append((f"rename-{tag} {p}", ["mv", p, (par + "/" if par else "") + variant]))
         if cont is DIR:
             out.append((f"add {p}/new.bin", ["write", p + "/new.bin", b"new file"]))
             out.append((f"mkdir {p}/newdir", ["mkdir", p + "/newdir"]))
